@@ -43,7 +43,7 @@ ASSUMPTIONS = [
 MINIMUMS = {
     'quick': {'evaluations': 3000, 'runs_with_preemption': 3000, 'preempt_in:building.py': 50,
               'preempt_in:history.py': 50, 'preempt_in:signatures.py': 50,
-              'preempt_in:reraised_exception.py': 10, 'free_running_rounds': 20, 'pairs_enumerated': 49},
+              'preempt_in:reraised_exception.py': 10, 'free_running_rounds': 20, 'context_copying_launcher_runs': 5, 'pairs_enumerated': 49},
     'thorough': {'evaluations': 1000},
 }
 
@@ -156,7 +156,9 @@ def P4(env, label):
   def prog():
     shared = [label, 2.5]
     cfg = fdl.Config(kinds.node, a=shared, b=fdl.Partial(kinds.two, x=shared, y=kinds.Color.RED),
-                     c={'k': b'\\u0041', 'j': (1, None)})
+                     c={'k': b'\\u0041', 'j': (1, None)},
+                     # function / enum leaves at a path that differs between the threads
+                     **{f'extra_{label}': kinds.two, f'extra_e{label}': [kinds.Color.RED, kinds.three]})
     doc = serialization.dump_json(cfg)
     back = serialization.load_json(doc)
     env.histories.append((label, collect_ids(cfg) + collect_ids(back)))
@@ -226,7 +228,34 @@ def P7(env, label):
   return prog
 
 
-FACTORIES = {'P1': P1, 'P2': P2, 'P3': P3, 'P4': P4, 'P5': P5, 'P6': P6, 'P7': P7}
+def P8(env, label):
+  def prog():
+    # inside suspend_tracking this thread starts a worker the way asyncio.to_thread does
+    # (contextvars.copy_context().run): suspension is per THREAD, the worker's edits are logged
+    import contextvars
+    out = {}
+
+    def worker():
+      c = fdl.Config(kinds.two, x=1)
+      c.y = label
+      c.x = 2
+      out['entries'] = sorted((k, len(v)) for k, v in c.__argument_history__.items())
+      out['enabled'] = history.tracking_enabled()
+
+    mine = fdl.Config(kinds.three)
+    with history.suspend_tracking():
+      mine.a = label
+      t = threading.Thread(target=contextvars.copy_context().run, args=(worker,))
+      t.start()
+      t.join(30)
+    mine.b = 1
+    return (out.get('entries'), out.get('enabled'),
+            sorted((k, len(v)) for k, v in mine.__argument_history__.items()))
+  return prog
+
+
+FACTORIES = {'P1': P1, 'P2': P2, 'P3': P3, 'P4': P4, 'P5': P5, 'P6': P6, 'P7': P7, 'P8': P8}
+FREE_ONLY = ['P8']        # starts a thread of its own: only in the free-running mode
 
 
 def make(names):
@@ -376,7 +405,7 @@ def run_free(spec, acc):
   try:
     for _, rng in acc.cases(spec):
       k = rng.choice([2, 3, 4, 8])
-      names = [rng.choice(PROGRAMS) for _ in range(k)]
+      names = [rng.choice(PROGRAMS + FREE_ONLY) for _ in range(k)]
       expected = [solo(nme, i)[0] for i, nme in enumerate(names)]
       env, progs = make(names)
       results = [None] * k
@@ -401,6 +430,15 @@ def run_free(spec, acc):
           acc.violation(f'thread-result-differs-from-solo:{nme}:free-running',
                         f'{nme} observed {safe_repr(results[i], 200)}, alone {safe_repr(expected[i], 200)}',
                         {'programs': names})
+        if nme == 'P8' and results[i][0] == 'ok':
+          # absolute oracle (the solo run would inherit the suspension just the same): the worker
+          # never suspended anything, so tracking is on in it and its three edits are logged
+          entries, enabled, _ = results[i][1]
+          acc.obs('context_copying_launcher_runs')
+          if enabled is not True or dict(entries or ()) != {'__fn_or_cls__': 1, 'x': 2, 'y': 1}:
+            acc.violation('suspension-inherited-by-thread-started-with-a-copied-context',
+                          f'worker thread: tracking_enabled()={enabled}, history sizes {entries}',
+                          {'programs': names})
       all_ids = [x for _, lists in env.histories for ids in lists for x in ids]
       if len(set(all_ids)) != len(all_ids):
         acc.violation('history-ids-not-unique-across-threads', 'free-running', {'programs': names})
